@@ -19,6 +19,8 @@ def gen_cases(ctx, n_simple, n_hard):
     cases += [mapcase.gen_core_case(ctx.rng, hard=True, joins=False, nrows=ctx.scale(120, 400)) for _ in range(ctx.scale(10, 60))]
     # the same mapping over same-named tables of two databases (two data-source sections)
     cases += [mapcase.gen_shard_case(ctx.rng) for _ in range(ctx.scale(8, 80))]
+    # delimited text files (comma / semicolon / tab) whose cells are words that readers like to interpret (NA, None, NULL, 0071, 1.50, true)
+    cases += [mapcase.gen_words_case(ctx.rng) for _ in range(ctx.scale(12, 100))]
     return cases
 
 
